@@ -8,10 +8,12 @@ CONSTANTS
   FIXOHEXP = TRUE
   FIXOHFLG = TRUE
   FIXOHSEC = TRUE
+  PEERIMPL = FALSE
   XorAcc <- SymXor
   MINLEN = 2
   MAXLEN = 3
   MAXSEG = 3
   GEN = FALSE
+  PEERPATHS = TRUE
   BROKEN = "none"
 INVARIANTS OneHopVerifies AuthenticVerifies TamperDetectedAtOwner StepsBounded Emit
